@@ -523,6 +523,56 @@ class NavMachine(ListingBase):
             self._NSETS[rel] = len(result_set_lines(image(rel)))
         return self._NSETS[rel]
 
+    # ---- deterministic sweep: every navigation sequence up to a bound (C07 quantifier)
+    _LAYOUT = {}
+
+    @classmethod
+    def nav_alphabet(cls, n):
+        js = sorted(set([0, 1, max(n - 2, 0), n - 1])) if n > 4 else list(range(n))
+        ops = [['FIRST', [0, 0]], ['LAST', [0, 0]], ['NEXT', [0, 0]], ['PREV', [0, 0]]]
+        ops += [['INDEX', [n + j, 0]] for j in js] + [['INDEX', [n - 1 - j, 0]] for j in js]
+        for kind in ('TIME', 'STEP'):
+            ops += [[kind, [j, m]] for j in js for m in (0, 1, 2)]
+            ops += [[kind, [0, 3]], [kind, [0, 4]]]
+        ops.append(['HISTORY', [7, 0, 0, 0, 0, 0]])
+        return ops
+
+    @classmethod
+    def sweep_layout(cls, tier):
+        if tier not in cls._LAYOUT:
+            segs = []
+            cat = catalogue(tier)
+            for ci, rel in enumerate(cat):
+                n = len(result_set_lines(image(rel)))
+                if n < 2:
+                    continue
+                a = len(cls.nav_alphabet(n))
+                size = len(image(rel))
+                maxlen = 3 if (n <= 3 and size < 120000) else 2
+                for L in range(1, maxlen + 1):
+                    segs.append((ci, n, L, a ** L))
+            cls._LAYOUT[tier] = segs
+        return cls._LAYOUT[tier]
+
+    @classmethod
+    def sweep_size(cls, tier):
+        return sum(s[3] for s in cls.sweep_layout(tier))
+
+    @classmethod
+    def sweep_case(cls, i, tier):
+        for ci, n, L, cnt in cls.sweep_layout(tier):
+            if i < cnt:
+                alpha = cls.nav_alphabet(n)
+                ops = []
+                for _ in range(L):
+                    k, c = alpha[i % len(alpha)]
+                    ops.append([k, list(c), None])
+                    i //= len(alpha)
+                return ({'tier': tier, 'multi': False, 'sweep': True},
+                        [['OPEN', [ci, 0, 2], None]] + ops)
+            i -= cnt
+        raise IndexError(i)
+
 
 class HistoryMachine(ListingBase):
     """C06 — history() equals stepping through the listing, terminates, leaves the cursor."""
